@@ -55,6 +55,14 @@ func (ss *segmentStack) decRef() {
 			ss.lowerLevelSnapshot = nil
 		}
 	}
+	if ss.refs == 0 {
+		// The stack holds one ref-count on each child collection stack
+		// (and so, indirectly, on the child's lower level snapshot), to
+		// be released exactly once.
+		for _, childSegStack := range ss.childSegStacks {
+			childSegStack.decRef()
+		}
+	}
 	ss.m.Unlock()
 }
 
